@@ -44,7 +44,10 @@ def dec_val(v):
 
 def enc_tensor(t):
     vals = t.detach().to(torch.float64 if t.dtype.is_floating_point else torch.int64).reshape(-1).tolist() if t.dtype != torch.bool else t.reshape(-1).tolist()
-    return dict(dtype=dtn(t.dtype), shape=list(t.shape), values=[enc_val(v) for v in vals], approx=[v if not isinstance(v, float) or v == v and abs(v) != tm.INF else str(v) for v in vals])
+    d = dict(dtype=dtn(t.dtype), shape=list(t.shape), values=[enc_val(v) for v in vals], approx=[v if not isinstance(v, float) or v == v and abs(v) != tm.INF else str(v) for v in vals])
+    if type(t) is torch.Tensor and t.numel() > 1 and not t.is_contiguous() and all(s > 0 for s in t.stride()):
+        d["stride"] = list(t.stride())  # the memory layout is part of the input (non-overlapping layouts only)
+    return d
 
 
 def dec_tensor(d):
@@ -55,7 +58,15 @@ def dec_tensor(d):
     else:
         t = torch.tensor(vals, dtype=dt)
     # a fresh base tensor, not a view: in-place writes through views of autograd.Function inputs behave differently
-    return t.reshape(d["shape"]).clone()
+    t = t.reshape(d["shape"]).clone()
+    if d.get("stride"):
+        try:
+            s = torch.empty_strided(d["shape"], d["stride"], dtype=t.dtype)
+            s.copy_(t)
+            return s
+        except Exception:  # noqa  (overlapping layout: keep the contiguous copy)
+            pass
+    return t
 
 
 # ------------------------------------------------------------------------------ solving
